@@ -203,8 +203,13 @@ func newBlockReader(block []byte, headerOff uint32, tableBlockSize uint32, hashS
 			return nil, err
 		}
 		// Have to use io.Copy. zlib stream has a terminator,
-		// which we must consume, so go until EOF.
-		if _, err := io.Copy(out, r); err != nil {
+		// which we must consume, so go until EOF. The header says
+		// how long the inflated block is; do not inflate more than
+		// one byte beyond that.
+		if sz < headerOff+4 {
+			return nil, fmtError
+		}
+		if _, err := io.Copy(out, io.LimitReader(r, int64(sz-(headerOff+4))+1)); err != nil {
 			return nil, err
 		}
 
